@@ -7,6 +7,10 @@ from typing import Any, Iterator, Optional, Tuple, Union
 
 PatchToken = Tuple[types.ModuleType, str, Any]
 
+# Marks "the attribute did not exist"; None is a legitimate attribute value
+# (sys.stdin is None in a detached process) and must be restored, not deleted.
+_MISSING = object()
+
 
 def begin_patch(
     module: Union[str, types.ModuleType], member: str, new_value: Any
@@ -17,10 +21,7 @@ def begin_patch(
 
         module = sys.modules[module]
 
-    if not hasattr(module, member):
-        old_member = None
-    else:
-        old_member = getattr(module, member)
+    old_member = getattr(module, member, _MISSING)
     setattr(module, member, new_value)
     return module, member, old_member
 
@@ -30,8 +31,11 @@ def end_patch(token: Optional[PatchToken]) -> None:
         return
 
     module, member, old_member = token
-    if old_member is None:
-        delattr(module, member)
+    if old_member is _MISSING:
+        # The patched code may already have deleted the attribute itself;
+        # that must not abort the remaining restores.
+        if hasattr(module, member):
+            delattr(module, member)
     else:
         setattr(module, member, old_member)
 
